@@ -49,6 +49,7 @@
      FixDrain    join_all_workers drops what is still queued after joining the workers
      FixSignal   the re-check arm of ensure_workers_spawned signals the processor state before joining
      ListenFirst the worker registers its listener before re-checking (FALSE = a seeded mutation)
+     NotifyAdditional  spawn_internal wakes with notify_additional(1) (FALSE = notify(1): finding S16)
 
    Schedulers are never dropped in this model (the worst case the property quantifies over: "awaiting any join handle"
    must terminate while the scheduler that produced it is still alive), so queued tasks are dropped only by the code. *)
@@ -63,6 +64,9 @@ CONSTANTS WPP,          \* workers per processor
           PanicTasks,   \* subset of Tasks: bodies that panic
           WithDrop,     \* the pool is dropped at an arbitrary moment (or never); FALSE: never
           FixEnqueue, FixDrain, FixSignal, ListenFirst,
+          NotifyAdditional,   \* spawn wakes one MORE sleeping worker (Event::notify_additional(1)); FALSE: Event::notify(1),
+                              \* which does nothing while an earlier notification has not been consumed yet
+          Gate,         \* [Tasks -> Tasks \cup {0}]: the body of task t does not return before task Gate[t] has run (0: no gate)
           Labels        \* TRUE only in generator runs: `step` then carries the label of the action (else constant)
 
 Lab(x) == IF Labels THEN x ELSE <<>>
@@ -122,7 +126,7 @@ Registered(p) == {w \in WorkersOf(p) : lst[w] = "reg"}
 
 \* notify(1): nothing to do if a listener is already notified (or none is registered); else one registered listener
 NotifyOne(p, l) ==
-    IF Notified(p) # {} \/ Registered(p) = {} THEN {l}
+    IF Registered(p) = {} \/ (~NotifyAdditional /\ Notified(p) # {}) THEN {l}
     ELSE {[l EXCEPT ![v] = "notified"] : v \in Registered(p)}
 NotifyAll(p, l) == [w \in W |-> IF w \in Registered(p) THEN "notified" ELSE l[w]]
 \* the listener of w goes away (dropped on `continue`, or consumed by wait()); a notified one is passed on when dropped
@@ -257,8 +261,10 @@ WPop(w) ==
     /\ WLabel(w, "w.pop_u")
     /\ UNCHANGED <<lst, res>> /\ UNCH_W /\ UNCHANGED absvars
 
+GateOpen(t) == IF t = 0 THEN TRUE ELSE IF Gate[t] = 0 THEN TRUE ELSE runs[Gate[t]] > 0
 WRun(w) ==
     /\ wpc[w] = "w.run"
+    /\ GateOpen(wtask[w])                                      \* a gated body blocks its worker until the other task ran
     /\ LET t == wtask[w] IN
        /\ runs' = [runs EXCEPT ![t] = @ + 1]
        /\ ranOn' = [ranOn EXCEPT ![t] = w[1]]
@@ -393,6 +399,12 @@ QNonEmpty(p) == qU[p] # <<>> \/ qR[p] # <<>>
 AllAsleep(p) == \A w \in WorkersOf(p) : wpc[w] = "w.wait" /\ lst[w] = "reg"
 NotifyPending(p) == \E s \in Spawners : P(s) = p /\ spc[s] = "sp.notify"
 NoLostWakeup == \A p \in Procs : (QNonEmpty(p) /\ AllAsleep(p) /\ ~flag[p]) => NotifyPending(p)
+\* NO WAKE-UP OF AN IDLE WORKER IS LOST, worker by worker: work is queued, some worker of that processor sleeps un-notified,
+\* every other worker of the processor is asleep too or busy inside a task body, and nobody is about to notify
+Asleep(w) == wpc[w] = "w.wait" /\ lst[w] = "reg"
+NoIdleLost == \A p \in Procs :
+    (QNonEmpty(p) /\ ~flag[p] /\ (\E w \in WorkersOf(p) : Asleep(w)) /\ (\A w \in WorkersOf(p) : Asleep(w) \/ wpc[w] = "w.run"))
+        => NotifyPending(p)
 \* ... and the same for the shutdown signal
 NoLostShutdown == \A p \in Procs : (flag[p] /\ \E w \in WorkersOf(p) : wpc[w] = "w.wait" /\ lst[w] = "reg") => NotifyPending(p)
 
